@@ -42,12 +42,14 @@ import (
 	"github.com/grafana/carbon-relay-ng/cfg"
 	"github.com/grafana/carbon-relay-ng/imperatives"
 	"github.com/grafana/carbon-relay-ng/input"
+	"github.com/grafana/carbon-relay-ng/matcher"
 	"github.com/grafana/carbon-relay-ng/table"
 	"github.com/grafana/carbon-relay-ng/validate"
 	m20 "github.com/metrics20/go-metrics20/carbon20"
 	log "github.com/sirupsen/logrus"
 
 	"verif/mc/destharn"
+	"verif/mc/harn"
 	"verif/mc/kit"
 	"verif/mc/vrt"
 	"verif/mc/vrt/vos"
@@ -499,6 +501,12 @@ func (e *cmdExec) Body() {
 		panic(err)
 	}
 	t := table.New(tc)
+	// the first route holds a dispatcher up on request: every follow-up admin operation is applied while a
+	// line that has already loaded the table (and will reach the routes behind this one) is in flight
+	gateOpen := true
+	gate := harn.NewCapture("gate", matcher.Matcher{})
+	gate.Hook = func([]byte) { vrt.WaitUntil("gate route", func() bool { return gateOpen }) }
+	t.AddRoute(gate)
 	for _, s := range c.setup {
 		if err := imperatives.Apply(t, s); err != nil {
 			panic("setup command failed: " + err.Error())
@@ -535,6 +543,13 @@ func (e *cmdExec) Body() {
 	traffic()
 	for _, a := range c.after {
 		f := strings.Fields(a)
+		gateOpen = false
+		inflight := false
+		vrt.GoNamed("in-flight", func() {
+			t.Dispatch([]byte(fmt.Sprintf("a.b 1 %d", vrt.Now().Unix())))
+			inflight = true
+		})
+		vrt.Quiesce() // parked inside the gate route, holding the table value it loaded
 		switch f[0] {
 		case "delDest":
 			var idx int
@@ -547,6 +562,9 @@ func (e *cmdExec) Body() {
 				e.errs = append(e.errs, err.Error())
 			}
 		}
+		vrt.Quiesce() // whatever the operation set in motion has come to rest
+		gateOpen = true
+		vrt.WaitUntil("in-flight line handled", func() bool { return inflight })
 		traffic()
 	}
 	// more than two periods of the default timers (flush 1 s, reconnect 10 s, keepSafe 10 s, aggregation 10+5 s)
